@@ -2,6 +2,7 @@ package eng
 
 import (
 	"fmt"
+	"strings"
 	"go/token"
 	"go/types"
 
@@ -105,6 +106,9 @@ func (g *Gen) mapRead(st *State, m Val, ty types.Type, kt *Term) (Val, *Term) {
 	in = And(Ne(m.T, IntLit(0)), in)
 	v := buildVal(mi.V, func(lf leaf) *Term {
 		s := ArraySort(SInt, ArraySort(mi.ks, lf.Sort))
+		if isRefType(lf.Ty) || strings.HasSuffix(lf.Path, "#arr") {
+			g.refComps[mi.name+":val"+lf.Path] = true
+		}
 		h := g.heapGet(st, mi.name+":val"+lf.Path, s)
 		return Ite(in, Select(Select(h, m.T), kt), zeroTerm(lf.Sort))
 	})
